@@ -385,7 +385,7 @@ class Job:
         k = 'hdrs'
         if k not in Job._dephash_cache:
             h = hashlib.sha256()
-            for root in (os.path.join(SRC, 'oomd'), os.path.join(V, 'harness'), os.path.join(V, 'shadow'), os.path.join(V, 'rt')):
+            for root in (os.path.join(SRC, 'oomd'), os.path.join(V, 'harness'), os.path.join(V, 'shadow'), os.path.join(V, 'rt'), os.path.join(V, 'env')):
                 for dp, dn, fn in sorted(os.walk(root)):
                     for f in sorted(fn):
                         if f.endswith(('.h', '.hpp', '.inc')):
